@@ -323,6 +323,8 @@ impl<'a> Lexer<'a> {
 
     /// Get the next token from the source
     pub fn next_token(&mut self) -> Token {
+        #[cfg(tsrun_verif)]
+        crate::verif_hooks::count_lexer_token();
         self.skip_whitespace_and_comments();
 
         self.start_pos = self.current_pos;
